@@ -7,6 +7,7 @@ CONSTANTS
   OutKeys <- BOutKeys
   InKeys <- BInKeys
   Senders = {2}
+  Mirror = TRUE
   Codes = {"denied"}
 VIEW View
 PROPERTIES DeniedOnlyByDst
